@@ -100,7 +100,7 @@ def _git_head():
 
 
 def load_known():
-    p = os.path.join(VERIF, "known_findings.json")
+    p = os.environ.get("VERIF_KNOWN_FINDINGS") or os.path.join(VERIF, "known_findings.json")  # (env: tests only)
     if not os.path.exists(p):
         return []
     return json.load(open(p))["findings"]
